@@ -134,6 +134,29 @@ def run(rep):
                               f"(limit {lim2:.0f}): the rows are not independent")
             rep.nontrivial(("pair48", r1, r2))
     rep.set("worst_pair_chi2_width48", round(worst2, 2))
+    # larger power-of-two widths at depth 8 (each row needs log2(width) fresh hash bits):
+    # every row balanced, neighbouring and far-apart row pairs independent
+    sub_keys = keys[256 : 256 + 32768]
+    for Wp in (32, 64, 128):
+        colsp = columns("linear", Wp, D, sub_keys)
+        rep.evals(len(sub_keys) * D)
+        dof = Wp - 1
+        for r in range(D):
+            x = chi2_uniform(colsp[:, r], Wp)
+            if x >= dof + 12 * math.sqrt(2 * dof) + 40:
+                rep.violation({"test": "uniform-pow2", "width": Wp, "row": r, "seed": rep.seed},
+                              f"width {Wp} depth 8, row {r}: column histogram chi2({dof}) = {x:.1f}: "
+                              f"{len(set(colsp[:, r].tolist()))} of {Wp} columns ever used")
+        for r1, r2 in ((0, 1), (0, 7), (3, 4), (6, 7), (2, 6)):
+            # coarse 8x8 contingency on the columns' top three bits keeps expected counts large
+            a = (colsp[:, r1].astype(np.int64) * 8 // Wp)
+            b = (colsp[:, r2].astype(np.int64) * 8 // Wp)
+            x = chi2_indep(a, b, 8)
+            rep.evals(len(sub_keys))
+            if x >= 49 + 12 * math.sqrt(98) + 40:
+                rep.violation({"test": "pair-pow2", "width": Wp, "rows": [r1, r2], "seed": rep.seed},
+                              f"width {Wp} depth 8, rows {r1},{r2}: coarse joint histogram chi2(49) = {x:.1f}")
+        rep.nontrivial(("pow2", Wp))
     # a third universe of LONG keys (12 bytes: more than one 8-byte hash block), width 16
     long_keys = [b"longkey-" + k for k in keys[256:]]
     cols3 = columns("linear", W, D, long_keys)
@@ -211,6 +234,17 @@ def replay(case):
         a = columns("linear", W, D, sub)
         c = columns(case["kind_"], W, case["depth"], sub)
         return not np.array_equal(c, a[:, : case["depth"]]), {}
+    if t in ("uniform-pow2", "pair-pow2"):
+        Wp = case["width"]
+        colsp = columns("linear", Wp, D, keys[256 : 256 + 32768])
+        if t == "uniform-pow2":
+            x = chi2_uniform(colsp[:, case["row"]], Wp)
+            return x >= (Wp - 1) + 12 * math.sqrt(2 * (Wp - 1)) + 40, {"chi2": x}
+        r1, r2 = case["rows"]
+        a = (colsp[:, r1].astype(np.int64) * 8 // Wp)
+        b = (colsp[:, r2].astype(np.int64) * 8 // Wp)
+        x = chi2_indep(a, b, 8)
+        return x >= 49 + 12 * math.sqrt(98) + 40, {"chi2": x}
     if t in ("uniform-long", "pair-long", "vectors-long"):
         long_keys = [b"longkey-" + k for k in keys[256:]]
         cols3 = columns("linear", W, D, long_keys)
